@@ -73,8 +73,9 @@ class LoopSpec:
 class Locals:
     """Attribute view of a frame's local variables for contract code."""
 
-    def __init__(self, env):
+    def __init__(self, env, frame=None):
         object.__setattr__(self, "_env", env)
+        object.__setattr__(self, "_frame", frame)
 
     def __getattr__(self, name):
         try:
@@ -635,7 +636,7 @@ class Interp:
         fr = self.frames[-1]
         fq = fr.func.fq
         lab = spec.label or f"{fq}#loop{k}"
-        L = Locals(env)
+        L = Locals(env, fr)
         g = path.ghost
         is_for = isinstance(st, ast.For)
         n_iter = None
@@ -1532,6 +1533,10 @@ class Interp:
                         f = f.dispatch[tn]
                         break
         fq = f.fq
+        if getattr(self, "skip_modular_once", None) == fq:
+            # the unit's own top-level call of a (recursive) function: execute the body; inner calls use the contract
+            self.skip_modular_once = None
+            return self.run_body(f, args, kwargs)
         hook = self.hooks.get(fq)
         contract = self.modular.get(fq)
         if hook is not None or contract is not None:
